@@ -656,7 +656,7 @@ def run(ctx):
     cases_t, ninputs, nbig = table_cases(ctx, "MC_Fitch_quick.cfg" if q else "MC_Fitch_thorough.cfg")
     # 2. TLC: the purity state machine; as shipped, TLC must find the two-call counterexample
     ctx.model("MC_Fitch", "AsShipped_Fitch.cfg", expect_violation="PureScore", count=False, heap="2g")
-    cases_p, nedges = path_cases(ctx, "MC_Fitch_sm_quick.cfg", 8 if q else 1)
+    cases_p, nedges = path_cases(ctx, "MC_Fitch_sm_quick.cfg", 16 if q else 1)
     if not q:
         ctx.model("MC_Fitch", "MC_Fitch_sm_thorough.cfg", heap="3g", timeout=6 * 3600)
         ctx.model("MC_Fitch", "MC_Fitch_sm_thorough4.cfg", heap="3g", timeout=6 * 3600)
@@ -670,7 +670,9 @@ def run(ctx):
         rnd.append({"kind": "random_table", "seed": ctx.seed * 1000003 + 500000 + i, "nleaves": 5 + (i % 5),
                     "basal_trifurcation": i % 3 == 2})
     driven = ctx.drive(cases_t + cases_p + rnd, run_case, chunksize=64)
-    ctx.judge("Trace_Fitch", driven, batch=6000 if q else 20000, heap="1g" if q else "2g", timeout=3000 if q else 6 * 3600)
+    nev = sum(len(evs) for _, evs in driven)
+    # one judge JVM per slot of the pool (8 at a time): the batches of the quick tier are sized to fill one round
+    ctx.judge("Trace_Fitch", driven, batch=(nev // 8 + 50) if q else 20000, heap="2g", timeout=3000 if q else 6 * 3600)
     settle_drift(ctx)
     count_nontrivial(ctx, driven)
     ctx.extra["root_invariance_comparisons"] = count_root_comparisons(driven)
@@ -683,7 +685,7 @@ def run(ctx):
                 "treatments x every weight vector over {0,1,2}, as Standard matrix and 1 in %d also embedded in Dna) + one real history per "
                 "transition of the dumped SpecS graph (%d transitions; those starting more than one step from an initial state: 1 in %d) + %d seeded random histories and %d random instances on trees with "
                 "5-9 leaves (re-rooting on edges and at nodes, rotation, pruning, extra matrix taxa); distinct_nontrivial = distinct (tree, taxa, matrix, gap treatment, weights, api[, cached leaf sets]) calls whose "
-                "matrix has a column with at least two different symbols" % (ninputs, ml, 6 if q else 2, nedges, 8 if q else 1, nrand, ntab))
+                "matrix has a column with at least two different symbols" % (ninputs, ml, 6 if q else 2, nedges, 16 if q else 1, nrand, ntab))
     ctx.exhaustive = True
     ctx.extra["exhaustive_domain"] = ("ordered bifurcating shapes x 1-character matrices over {0,1,2,{01},{02},{12},{012},gap,?} with 2..%d leaves "
                                       "and 2-character matrices over {0,1,gap} with 2..%d leaves: all %d such inputs of the TLC dump replayed"
